@@ -34,6 +34,9 @@ Corpus == Leaves \cup Unsized \cup D1 \cup D2 \cup D3 \cup UNION {Bin(x, y) : x 
           \* a tuple whose LATER member converts another tuple (directly, inside a sequence, inside a map) met for the first time
           \cup UNION {{Tup(<<E0("u8"), Tup(<<x, E0("u32")>>)>>), Tup(<<E0("u8"), E0("bool"), E1("Vec", Tup(<<x, E0("u32")>>))>>),
                        Tup(<<E0("u8"), E2("BTreeMap", x, E0("bool"))>>), Tup(<<Tup(<<x>>), Tup(<<E0("bool"), Tup(<<x, x>>)>>)>>)} : x \in {E0("u16"), E0("String")}}
+          \* a marker behind EVERY transparent wrapper (and behind two), as a tuple member and as a variant payload
+          \cup UNION {{Tup(<<E0("u64"), E1(w, E1("PhantomData", E0("u8"))), E0("bool")>>), E1("Option", E1(w, E1("PhantomData", E0("u16")))),
+                       Tup(<<E1(w, E1("Box", E1("PhantomData", Unit))), E0("u8")>>), Tup(<<E1("Arc", E1(w, E1("PhantomData", Unit))), E0("u8")>>)} : w \in Transparent}
           \* two same-named, same-path user types, alone and inside built-in constructors
           \cup UNION {{L, E1("Vec", L), E1("Option", L), E1("Box", L), ArrE(2, L), E2("Result", L, E0("u8"))} : L \in {[c |-> "Local", a |-> <<>>, n |-> 1], [c |-> "Local", a |-> <<>>, n |-> 2]}}
           \cup {Tup(<<[c |-> "Local", a |-> <<>>, n |-> 1], [c |-> "Local", a |-> <<>>, n |-> 2]>>)}
